@@ -12,7 +12,7 @@ import re
 import builtins
 from .core import AnalysisError
 from .model import ClassInfo
-from .astutil import src, strip_doc, if_chain, terminates, _unify, conjuncts
+from .astutil import reach_conditions, src, strip_doc, if_chain, terminates, _unify, conjuncts
 
 DAYLIGHT = ['chython.files.daylight.tokenize', 'chython.files.daylight.parser', 'chython.files.daylight.smiles',
             'chython.files.daylight.smarts', 'chython.files._convert', 'chython.files._mapping']
@@ -187,6 +187,10 @@ def self_guarded(parents, node, func):
         def member(t, negated):
             return isinstance(t, ast.Compare) and len(t.ops) == 1 and isinstance(t.ops[0], ast.NotIn if negated else ast.In) and \
                 isinstance(t.left, ast.Name) and t.left.id == k_ and isinstance(t.comparators[0], ast.Name) and t.comparators[0].id == d_
+        # ... or by an earlier `if k not in D: raise / continue / return` in an enclosing block (control dependence incl. early exits)
+        for c_ in reach_conditions(node, func, parents):
+            if member(c_, False):
+                return f'guarded by the membership test `{src(c_)}` on every path that reaches it'
         child, p = node, parents.get(node)
         while p is not None and p is not func:
             if isinstance(p, ast.If):
@@ -195,6 +199,19 @@ def self_guarded(parents, node, func):
                 if (in_body and any(member(c, False) for c in conjuncts(p.test))) or (in_else and member(p.test, True)):
                     return f'guarded by the membership test `{src(p.test)}`'
             child, p = p, parents.get(p)
+        return None
+    # X.pop() / X[-1] on a list reached only where X is known to be non-empty (`if not X: raise ..` before it, or inside `if X:`)
+    lst = None
+    if isinstance(node, ast.Call) and isinstance(node.func, ast.Attribute) and node.func.attr == 'pop' and isinstance(node.func.value, ast.Name) and not node.args:
+        lst = node.func.value.id
+    if lst is not None:
+        for c_ in reach_conditions(node, func, parents):
+            if isinstance(c_, ast.Name) and c_.id == lst:
+                return f'guarded by the emptiness test on `{lst}` on every path that reaches it'
+            if isinstance(c_, ast.Compare) and len(c_.ops) == 1 and src(c_.left) == f'len({lst})' and isinstance(c_.comparators[0], ast.Constant) and (
+                    (isinstance(c_.ops[0], ast.Gt) and c_.comparators[0].value >= 0) or (isinstance(c_.ops[0], ast.GtE) and c_.comparators[0].value >= 1) or
+                    (isinstance(c_.ops[0], ast.NotEq) and c_.comparators[0].value == 0)):
+                return f'guarded by the length test `{src(c_)}` on every path that reaches it'
         return None
     if not (isinstance(node, ast.Subscript) and isinstance(node.value, ast.Name) and isinstance(node.slice, ast.Constant) and
             isinstance(node.slice.value, int) and node.slice.value >= 0):
